@@ -206,6 +206,15 @@ def payload_faults(seed):
             yield ["cut", oid, p]
         for how in ("+1", "-1", "0", "huge"):
             yield ["length", oid, how]
+    # content streams: every operand replaced by an operand of each other kind (a name for a string, a string for a number ...)
+    for oid in sorted(seed.objects):
+        v = seed.objects[oid]
+        if isinstance(v, Stream) and b"Filter" not in v.dict and seed.roles.get(oid, "").split(":")[0] in ("ContentStream", "CharProc", "Form"):
+            toks = content_tokens(v.raw)
+            for i, (a, b, is_operand) in enumerate(toks):
+                if is_operand:
+                    for k in range(len(OPERAND_SAMPLES)):
+                        yield ["cop", oid, i, k]
     # ToUnicode programs: the payload replaced by a CMap that is well-formed PostScript but says something extreme
     for oid in sorted(seed.objects):
         if isinstance(seed.objects[oid], Stream) and seed.roles.get(oid, "").startswith("ToUnicode"):
@@ -490,6 +499,10 @@ def apply_fault(seed, f):
         elif kind == "cut":
             obj.raw = raw[: f[2]]
             set_length(len(obj.raw))
+        elif kind == "cop":
+            a, b, _ = content_tokens(raw)[f[2]]
+            obj.raw = raw[:a] + OPERAND_SAMPLES[f[3]] + raw[b:]
+            set_length(len(obj.raw))
         elif kind == "cmapprog":
             obj.raw = CMAP_HEAD + CMAP_PROGRAMS[f[2]] + CMAP_TAIL
             obj.dict.pop(b"Filter", None)
@@ -526,7 +539,7 @@ def role_of(seed, f):
         return "Container.<payload>"
     if kind in ("ecut", "eflip"):
         return r + ".<ciphertext>"
-    if kind in ("flip", "cut", "length", "cmapprog"):
+    if kind in ("flip", "cut", "length", "cmapprog", "cop"):
         return r + ".<payload>"
     parts = []
     prev = None
@@ -568,6 +581,27 @@ def kind_of(f):
 
 
 # -------------------------------------------------------------------------------- execution
+OPERAND_SAMPLES = [b"/Nm", b"7", b"-2.5", b"(s)", b"<41>", b"[1 (a) /B]", b"<</K 1>>", b"null", b"true"]
+
+
+def content_tokens(raw):
+    """(start, end, is_operand) of the white-space separated pieces of a content stream (inline image data excluded);
+    a piece that is not an operator keyword counts as an operand (or part of one)."""
+    import re
+
+    out = []
+    inline = False
+    for m in re.finditer(rb"\S+", raw):
+        w = m.group(0)
+        if w == b"BI":
+            inline = True
+        if not inline:
+            out.append((m.start(), m.end(), not re.fullmatch(rb"[A-Za-z'\"*]+", w) or w in (b"true", b"false", b"null")))
+        if w == b"EI":
+            inline = False
+    return out
+
+
 CMAP_HEAD = b"/CIDInit /ProcSet findresource begin 12 dict begin begincmap /CMapName /X def /CMapType 2 def 1 begincodespacerange <00> <FF> endcodespacerange\n"
 CMAP_TAIL = b"\nendcmap CMapName currentdict /CMap defineresource pop end end\n"
 CMAP_PROGRAMS = [
@@ -734,7 +768,7 @@ def run(tape, ctx, item=None):
     devs = []
     fk, role = kind_of(f), role_of(seed, f)
     ctx.fault(f[0] if f[0] not in ("replace", "ref", "variant") else fk)
-    ctx.probe({"truncate": "truncation", "replace": "replace", "variant": "replace", "xrefcycle": "ref-loop", "prevloop": "ref-loop", "xrefstmloop": "ref-loop", "inline": "replace", "cdict": "replace", "ccut": "payload", "lengthref": "ref-loop", "remove": "remove", "ref": "ref-loop" if f[0] == "ref" and f[3][:3] in ("loo", "rho") else "replace", "flip": "payload", "cut": "payload", "length": "payload", "cmapprog": "payload", "cflip": "payload", "ecut": "payload", "eflip": "payload"}[f[0]])
+    ctx.probe({"truncate": "truncation", "replace": "replace", "variant": "replace", "xrefcycle": "ref-loop", "prevloop": "ref-loop", "xrefstmloop": "ref-loop", "inline": "replace", "cdict": "replace", "ccut": "payload", "lengthref": "ref-loop", "remove": "remove", "ref": "ref-loop" if f[0] == "ref" and f[3][:3] in ("loo", "rho") else "replace", "flip": "payload", "cut": "payload", "length": "payload", "cmapprog": "payload", "cop": "replace", "cflip": "payload", "ecut": "payload", "eflip": "payload"}[f[0]])
     outcomes = []
     for name, fn in entry_points(data, seed.name, f, ctx.tier):
         # (the page-by-page loop interprets every page four times: its budget is four single passes)
